@@ -1391,7 +1391,12 @@ def _equal(a, b):
 
 @handler("allclose")
 def _allclose(a, b, rtol=1e-5, atol=1e-8, **kw):
-    raise Unsupported("allclose on symbolic tensors")
+    # |a - b| <= atol + rtol * |b| elementwise; returned as a 0-d boolean tensor (forks only if the caller branches on it)
+    if tuple(np.broadcast_shapes(tuple(a.shape), tuple(b.shape))) is None:
+        return False
+    d = torch.abs(torch.sub(a, b))
+    bound = torch.add(torch.mul(torch.abs(b), rtol), atol)
+    return torch.le(d, bound).all()
 
 
 @handler("item")
